@@ -76,11 +76,12 @@ def layout(pattern: str) -> list[tuple[int, int | None]]:
 
 
 def const_slices(f: FuncInfo, base_pred) -> list[tuple[ast.Subscript, int | None, int | None]]:
-    from .common import xnorm
+    from .common import expand, xnorm
 
     out = []
     for n in own_nodes(f.node):
-        if isinstance(n, ast.Subscript) and isinstance(n.slice, ast.Slice) and (base_pred(norm(n.value)) or base_pred(xnorm(f.node, n.value))):
+        # the sliced text may have been hoisted into a local first (`line = repr(pkt)`): the base is compared after copy propagation
+        if isinstance(n, ast.Subscript) and isinstance(n.slice, ast.Slice) and (base_pred(norm(n.value)) or base_pred(xnorm(f.node, n.value)) or base_pred(norm(expand(f.node, n.value, pure_only=False)))):
             lo = n.slice.lower.value if isinstance(n.slice.lower, ast.Constant) else (None if n.slice.lower is None else "?")
             hi = n.slice.upper.value if isinstance(n.slice.upper, ast.Constant) else (None if n.slice.upper is None else "?")
             if "?" not in (lo, hi):
@@ -269,7 +270,12 @@ def check(ctx: Ctx) -> list[RuleResult]:
     r2.instances += 1
     r2.nontrivial += 1
     txt = norm(rp.node)
-    if "isoformat(timespec='microseconds')" in txt and "f'{dtm} ... {self}{hdr}'" in txt:
+    # the text __repr__ returns, however it is assembled: <dtm> ' ... ' <self> <hdr>
+    rets = [n.value for n in own_nodes(rp.node) if isinstance(n, ast.Return) and n.value is not None]
+    tmpls = [str_template(rp.node, v) for v in rets]
+    def _repr_shape(t: list) -> bool:
+        return len(t) == 4 and t[0][0] == "var" and t[1] == ("lit", " ... ") and t[2] == ("var", "self") and t[3][0] == "var"
+    if "isoformat(timespec='microseconds')" in txt and tmpls and all(_repr_shape(t) for t in tmpls):
         r2.ok({"Packet.__repr__": "isoformat(microseconds) + ' ... ' + frame"})
     else:
         r2.fail(f"{rp.short}:format", rp.loc(), "Packet.__repr__ is no longer '<26-char timestamp> <3-char rssi placeholder> <frame>'")
